@@ -176,6 +176,7 @@ func specParsed(p *FrameParser) bool {
 //@ iface Source.Read
 //@ requires[pre.buf]      true
 //@ ensures[src.read.n]    0 <= ret0 && ret0 <= len(buf)
+//@ ensures[src.exterr]    ret1 != nil ==> noRepoErr(ret1)
 //@ modifies elems(buf), ghost clock
 
 //@ iface Source.SetReadDeadline
@@ -185,7 +186,9 @@ func specParsed(p *FrameParser) bool {
 //@ modifies nothing
 
 //@ iface Sink.WriteTo
-//@ modifies nothing
+//@ ensures[sink.write]   wrN == old(wrN)+1 && wrClock == old(now()) && now() >= old(now())
+//@ ensures[sink.exterr]  ret0 != nil ==> noRepoErr(ret0)
+//@ modifies ghost wrN, ghost wrClock, ghost clock
 
 //@ iface Sink.Close
 //@ modifies nothing
